@@ -24,6 +24,9 @@ type directiveFacts struct {
 	nSlice    int
 	nMap      int
 	nEnd      int
+	// hoisted names of the argument of cff.Concurrency / cff.ContinueOnError ("" when the option is absent)
+	concurrencyLeaf string
+	continueLeaf    string
 	why       string
 }
 
@@ -146,6 +149,16 @@ func readDirective(testsDir string, fn *ssa.Function) *directiveFacts {
 		case "Concurrency", "ContinueOnError", "InstrumentFlow", "InstrumentParallel":
 			for _, a := range ce.Args {
 				leaf(a)
+			}
+			if len(ce.Args) == 1 {
+				ap := fset.Position(ce.Args[0].Pos())
+				nm := fmt.Sprintf("_%d_%d", ap.Line, ap.Column)
+				if name == "Concurrency" {
+					df.concurrencyLeaf = nm
+				}
+				if name == "ContinueOnError" {
+					df.continueLeaf = nm
+				}
 			}
 		case "Task":
 			df.nTasks++
